@@ -15,8 +15,9 @@ SPEC = {
         "C16's); the size-query form of GetVarStr (null buffer) is transcribed here",
         "tNMEA2000::SendMsg is an environment input (succeeds / fails for a whole HandleMsg call); the requests it sends are "
         "outputs (destination, requested PGN)",
-        "uninitialised memory (LastMessageTime of a new entry, fresh malloc blocks, the local tProductInformation) is an "
-        "arbitrary environment value in the theorems; in the differential run it is what ASan's allocator writes (0xbe)",
+        "uninitialised memory (fresh malloc blocks, the local tProductInformation) is an arbitrary environment value in the "
+        "theorems and never read before written in the model; the harness creates list entries from memory filled with "
+        "0x00 / 0xA5 / 0xBE (its operator new), so a member the constructor forgets shows up as a correspondence or oracle failure",
         "the model compares product information FIELD-WISE (ProdInfo record: four numbers and the four C strings), while "
         "tProductInformation::IsSame is a memcmp over the whole struct and HandleProductInformation never clears its local "
         "copy: on a truncated 126996 the library compares uninitialised bytes behind the terminators of that local buffer "
@@ -53,7 +54,6 @@ MANIFEST = {
     'design_ref': 'DESIGN.md section 4, C18',
     'note': "Trusted: Lean kernel; hand transcription of N2kDeviceList.cpp (with the four fix commits) validated only by "
             "differential runs; C16 parser models (what GetStr/GetVarStr leave in a buffer is C16's subject); SendMsg and "
-            "uninitialised memory as environment inputs; request pacing (as of /repo f104fb3: counter==0 means never requested, N2kHasElapsed for all three kinds - rule stated in C18_request_due; the uninitialised "
-            "LastMessageTime of a new reservation) is transcribed but its timing properties belong to C13. Open: "
+            "uninitialised memory as environment inputs; request pacing (as of /repo f104fb3: counter==0 means never requested, N2kHasElapsed for all three kinds - rule stated in C18_request_due) is transcribed, its timing properties belong to C13. Open: "
             "C18:parked-entry-prodinfo (displaced entries parked on a free slot).",
 }
